@@ -1,7 +1,7 @@
 (* C07 — property theorems. Nothing but statements closed by `exact <lemma>`, Print Assumptions beneath each,
    and the Examples (witness schedules: hypotheses are satisfiable, the three repaired defects stay documented). *)
 From Coq Require Import List Bool Arith NArith.
-From C07 Require Import Model ProofsInv ProofsIdx ProofsSafe ProofsCount ProofsFetch ProofsQuiesce.
+From C07 Require Import Model ModelFiles ProofsInv ProofsIdx ProofsSafe ProofsCount ProofsFetch ProofsQuiesce ProofsFiles.
 Import ListNotations.
 
 (* thm:C07_handover_no_gap, part 1 — the proxyFrac automaton. In EVERY state reachable by ANY label list (any
@@ -294,3 +294,174 @@ Example C07_getlids_split_v0_refuted :
   ansB = [1%nat] /\ ansA = [1%nat; 2%nat]
   /\ tl_sorted (merge_tok x) = [1%nat; 2%nat] /\ tl_sorted (merge_tok (merge_tok x)) = [1%nat; 2%nat].
 Proof. vm_compute. repeat split. Qed.
+
+(* ================================================================================================================
+   File / descriptor layer of the hand-over (ModelFiles.v), for BOTH values of frac.Config.SkipSortDocs and
+   KeepMetaFile. `xexec o c (xinit c n) ls` runs the SAME steps as `exec` (xexec_fst) and carries, per fraction, the
+   open descriptors, the existing files and which document descriptor the sealed fraction reads from (the active
+   fraction's own *os.File with SkipSortDocs=true, a freshly opened .sdocs otherwise). `o_close_in_releasemem o =
+   false` selects the code as it is (true = the seeded change C07-m10, kept as a refuted Example below); o_skip_sort
+   and o_keep_meta are universally quantified. This is the model the correspondence run executes for the CSchedF
+   cases (CaseDefs.case_agrees: xrun, observations AND file states compared after every label). *)
+
+Local Close Scope N_scope.
+
+(* In EVERY state reachable by ANY label list, in both modes: every resource (descriptor or file) that a LIVE provider
+   of a fraction uses is there - the active form (while proxyFrac.active != nil) has its descriptors on .docs and .meta
+   open and both files present; the sealed form (installed by the swap, not suicided) has the index descriptor open
+   and .index present and the document descriptor it reads from open with its file present. *)
+Theorem C07_files_live_provider_resources_open :
+  forall o c n ls g f r d,
+    o_close_in_releasemem o = false ->
+    let xs := xexec o c (xinit c n) ls in
+    nth_error (fracs (fst xs)) g = Some f -> nth_error (snd xs) g = Some r ->
+    used f r d = true -> rget d r = true.
+Proof. exact live_resources_open. Qed.
+Print Assumptions C07_files_live_provider_resources_open.
+
+(* No step of ANY thread (release, retention, seal, ...) in any reachable state takes away - closes or removes - a
+   resource that a provider which is live AFTER the step uses. *)
+Theorem C07_files_no_step_closes_used :
+  forall o c n ls l g f' r r' d,
+    o_close_in_releasemem o = false ->
+    let xs := xexec o c (xinit c n) ls in
+    let xs' := fst (xstep o c xs l) in
+    nth_error (snd xs) g = Some r ->
+    nth_error (fracs (fst xs')) g = Some f' -> nth_error (snd xs') g = Some r' ->
+    rget d r = true -> rget d r' = false -> used f' r' d = false.
+Proof. exact closes_only_unused. Qed.
+Print Assumptions C07_files_no_step_closes_used.
+
+(* The release step itself (seal thread parked at seal.swapped, no reader holds the active fraction): it IS
+   Active.Release; in both modes it leaves the sorted copy, the index and their descriptors and the sealed fraction's
+   document source alone; with SkipSortDocs=true it leaves the .docs descriptor and file alone (the sealed fraction
+   reads through them); it closes the meta descriptor, and closes + removes .docs only with SkipSortDocs=false and
+   removes .meta only with KeepMetaFile=false; and if the sealed provider is live, everything it reads from is open
+   and present after the release. *)
+Theorem C07_release_closes_only_unshared :
+  forall o c n ls g f r,
+    o_close_in_releasemem o = false ->
+    let xs := xexec o c (xinit c n) ls in
+    nth_error (fracs (fst xs)) (N.to_nat g) = Some f -> nth_error (snd xs) (N.to_nat g) = Some r ->
+    f_seal f = SSwapped -> f_rl f = 0 ->
+    let r' := active_release o r in
+    snd (xstep o c xs (LM g)) = OHook 34
+    /\ nth_error (snd (fst (xstep o c xs (LM g)))) (N.to_nat g) = Some r'
+    /\ fd_sdocs r' = fd_sdocs r /\ fd_index r' = fd_index r /\ fl_sdocs r' = fl_sdocs r /\ fl_index r' = fl_index r
+    /\ r_reads r' = r_reads r
+    /\ (o_skip_sort o = true -> fd_docs r' = fd_docs r /\ fl_docs r' = fl_docs r)
+    /\ fd_meta r' = false
+    /\ (o_skip_sort o = false -> fd_docs r' = false /\ fl_docs r' = false)
+    /\ (o_keep_meta o = false -> fl_meta r' = false)
+    /\ (o_keep_meta o = true -> fl_meta r' = fl_meta r)
+    /\ (f_sld f = true -> f_ssui f = false ->
+          sealed_read_ok r' = true /\ sealed_file_ok r' = true /\ fd_index r' = true /\ fl_index r' = true).
+Proof. exact release_effect. Qed.
+Print Assumptions C07_release_closes_only_unshared.
+
+(* The file layer never turns an answer into an error: in every reachable state, for every label, in both modes, the
+   observation of the step with descriptors taken into account is the observation of the index model - no request
+   answered by a sealed provider ever meets a closed index or document descriptor. *)
+Theorem C07_files_no_read_error :
+  forall o c n ls l,
+    o_close_in_releasemem o = false ->
+    let xs := xexec o c (xinit c n) ls in
+    snd (xstep o c xs l) = snd (step c (fst xs) l).
+Proof. exact no_read_error. Qed.
+Print Assumptions C07_files_no_read_error.
+
+(* "every ID a search returns can be fetched immediately" across the hand-over, end to end, BOTH modes: an ID y that a
+   stepwise search on the active fraction g returned (after ANY label list ls) - then ANYTHING happens (ls2: the rest
+   of the bulks, rotations, the whole seal of g including Active.Release, retention of other fractions, ...) - and
+   once g is served by its live sealed form, a fetch of y by ANY idle reader through ANY list entry that points to g
+   (an older list with the proxy or a fresh one with the plain sealed fraction) finds the document, and the descriptors
+   that fetch reads through - the index and the document descriptor the sealed fraction was given, i.e. the active
+   fraction's own one with SkipSortDocs=true - are open: it is never closed while that provider is live. *)
+Theorem C07_fetch_published_sealed_both_modes :
+  forall o c n ls r x g q pc a b m nn s p ids ls2 y r2 x2 j idsF k,
+    o_close_in_releasemem o = false -> v_all_last (c_ver c) = true ->
+    let st := exec c (init c n) ls in
+    nth_error (rs st) (N.to_nat r) = Some x -> r_op x = RSearch g q pc a b m nn s p ->
+    snd (step c st (LR r)) = ORes ids -> In y ids ->
+    let xs2 := xexec o c (xinit c n) (ls ++ LR r :: ls2) in
+    let st2 := fst xs2 in
+    nth_error (rs st2) (N.to_nat r2) = Some x2 -> r_op x2 = RIdle -> nth_error (r_snap x2) (N.to_nat j) = Some g ->
+    g < length (fracs st2) ->
+    f_act (getf st2 g) = false -> f_sld (getf st2 g) = true -> f_ssui (getf st2 g) = false ->
+    nth_error idsF k = Some y ->
+    sealed_read_ok (getres (snd xs2) g) = true /\ fd_index (getres (snd xs2) g) = true
+    /\ exists bodies body, snd (xstep o c xs2 (LFB r2 j idsF)) = OFetch bodies /\ nth_error bodies k = Some (Some body).
+Proof. exact fetch_published_sealed_both_modes. Qed.
+Print Assumptions C07_fetch_published_sealed_both_modes.
+
+(* ------------------------------------------------------------------ witnesses of the file layer *)
+Local Open Scope N_scope.
+Definition xlast (o : fopts) (c : config) (ls : list label) : obs * list N := last (xrun o c (xinit c 3) ls) (OUnit, []).
+Definition seal_all (g : N) : list label := repeat (LM g) 7.
+(* write, rotate, seal up to and including Active.Release, take a list, search, fetch *)
+Definition handover_fetch := lw 11 ++ [LRot] ++ repeat (LM 0) 5 ++ [LSnap 0; LSB 0 0 0; LFB 0 0 [(10, 1)]].
+
+(* the seeded change C07-m10 (docsFile.Close() moved from removeDocsFiles into releaseMem), SkipSortDocs=true: after
+   the release the sealed provider is live, the search still returns the ID, but the descriptor the sealed fraction
+   reads documents through is closed and the fetch of the ID just returned fails. The code as it is: fetched. With the
+   default SkipSortDocs=false the change is invisible (which is why the default-only schedules missed it). Replayed on
+   the real code by the fixed schedules handover-skipsort / handover-files. *)
+Example C07_release_misplaced_close_v0_refuted :
+  let c := mkCfg v_now [[[d1]]] qs0 in
+  let bad := mkOpts true false true in
+  let xs := xexec bad c (xinit c 3) (removelast handover_fetch) in
+  (sealed_live (getf (fst xs) 0) = true /\ sealed_read_ok (getres (snd xs) 0) = false /\ used (getf (fst xs) 0) (getres (snd xs) 0) FdDocs = true)
+  /\ fst (xlast bad c (removelast handover_fetch)) = ORes [(10, 1)]
+  /\ fst (xlast bad c handover_fetch) = OErr
+  /\ fst (xlast (mkOpts true false false) c handover_fetch) = OFetch [Some 1]
+  /\ fst (xlast (mkOpts false false true) c handover_fetch) = OFetch [Some 1]
+  /\ xlast (mkOpts false false true) c handover_fetch = xlast (mkOpts false false false) c handover_fetch.
+Proof. vm_compute. repeat split. Qed.
+
+(* non-vacuity of C07_release_closes_only_unshared and C07_files_*: in all four configurations the state right before
+   the release has a seal thread at seal.swapped, no reader lock, a live sealed provider - and the release closes the
+   meta descriptor (and .docs only without SkipSortDocs) *)
+Example C07_release_nonvacuous :
+  forall skip keep,
+  let o := mkOpts skip keep false in
+  let c := mkCfg v_now [[[d1]]] qs0 in
+  let xs := xexec o c (xinit c 3) (lw 11 ++ [LRot] ++ repeat (LM 0) 4) in
+  exists f r, nth_error (fracs (fst xs)) 0 = Some f /\ nth_error (snd xs) 0 = Some r
+              /\ f_seal f = SSwapped /\ f_rl f = 0%nat /\ f_sld f = true /\ f_ssui f = false
+              /\ used f r FdIndex = true /\ used f r (if skip then FdDocs else FdSdocs) = true
+              /\ fd_meta r = true /\ fd_meta (active_release o r) = false
+              /\ fd_docs (active_release o r) = skip /\ fl_meta (active_release o r) = keep.
+Proof. intros skip keep; destruct skip, keep; eexists; eexists; vm_compute; repeat split. Qed.
+
+(* non-vacuity of C07_fetch_published_sealed_both_modes: reader 0 is parked at the last leaf of a search on the active
+   fraction 0 and its next step returns (10,1); then the fraction is rotated out and sealed completely; reader 1 takes
+   a fresh list; fraction 0 is served by its live sealed form; the fetch returns the document - in all four
+   configurations *)
+Definition search_parked := lw 11 ++ [LSnap 0; LSB 0 0 0; LR 0; LR 0; LR 0].
+Example C07_fetch_both_modes_nonvacuous :
+  forall skip keep,
+  let o := mkOpts skip keep false in
+  let c := mkCfg v_now [[[d1]]] qs0 in
+  let st := exec c (init c 3) search_parked in
+  (exists x q pc a b m nn s p, nth_error (rs st) 0 = Some x /\ r_op x = RSearch 0 q pc a b m nn s p)
+  /\ snd (step c st (LR 0)) = ORes [(10, 1)]
+  /\ let xs2 := xexec o c (xinit c 3) (search_parked ++ LR 0 :: [LRot] ++ seal_all 0 ++ [LSnap 1]) in
+     (exists x2, nth_error (rs (fst xs2)) 1 = Some x2 /\ r_op x2 = RIdle /\ nth_error (r_snap x2) 0 = Some 0%nat)
+     /\ f_act (getf (fst xs2) 0) = false /\ f_sld (getf (fst xs2) 0) = true /\ f_ssui (getf (fst xs2) 0) = false
+     /\ snd (xstep o c xs2 (LFB 1 0 [(10, 1)])) = OFetch [Some 1].
+Proof.
+  intros skip keep; destruct skip, keep;
+    (split; [do 9 eexists; split; vm_compute; reflexivity|]; split; [vm_compute; reflexivity|];
+     split; [eexists; split; [vm_compute; reflexivity|]; split; vm_compute; reflexivity|]; vm_compute; repeat split).
+Qed.
+
+(* retention while the seal thread is parked between the swap and Active.Release (fixed schedules suicide-at-swap-files and suicide-at-swap-skipsort):
+   Sealed.Suicide closes the sealed fraction's descriptors - with SkipSortDocs=true that IS the active fraction's docs
+   descriptor - and Active.Release afterwards closes what is left; nothing stays open, nothing is used anymore *)
+Example C07_suicide_at_swap_then_release :
+  forall skip,
+  let o := mkOpts skip false false in
+  let c := mkCfg v_now [[[d1]]] qs0 in
+  snd (xlast o c (lw 11 ++ [LRot] ++ repeat (LM 0) 4 ++ [LSui])) = [if skip then 290 else 547; 51]
+  /\ snd (xlast o c (lw 11 ++ [LRot] ++ repeat (LM 0) 4 ++ [LSui; LM 0])) = [if skip then 256 else 512; 51].
+Proof. intros skip; destruct skip; vm_compute; split; reflexivity. Qed.
